@@ -26,7 +26,8 @@ ASSUMPTIONS = [
     'taurex.util.movingaverage (cumsum trick) = exact window mean up to rounding (validated)',
     'scipy.interpolate.interp1d(kind=linear, bounds_error=False, fill_value=(lo,hi)) = stable sort by abscissa + '
     'np.interp + fill values outside the node range',
-    'scipy.special.expn(2, x) supplied to the model value by value (E2 is a parameter of the Guillot closed form)',
+    'scipy.special.expn(2, x) supplied to the model value by value (E2 is a parameter of the Guillot closed form); '
+    'guillot_positive assumes 0 <= E2(x) <= exp(-x)/(1+x) on x >= 0 (checked against scipy on a sample every run)',
     'pressure grid and pressure nodes > 0; control temperatures > 0; Rodgers correlation length != 0; smoothing '
     'window a percentage in [0, 100]; distinct pressure points for TemperatureArray',
     'rounding: model on Float vs numpy doubles compared to 1e-10 relative (Guillot: + 1e-15/min(gamma))',
@@ -578,7 +579,11 @@ def judge(ctx, c, small, reuse):
     judged_positive = True
     if kind == 'guillot':
         q = c['params']
-        judged_positive = in_documented_bounds(q) and (q['T_irr'] > 0 or q['T_int'] > 0)
+        # the domain of theorem guillot_positive: positive opacities, 0 <= alpha <= 1, non-negative temperatures not both 0
+        judged_positive = (in_documented_bounds(q) or (
+            q['kappa_irr'] > 0 and q['kappa_v1'] > 0 and q['kappa_v2'] > 0 and 0 <= q['alpha'] <= 1
+            and q['T_irr'] >= 0 and q['T_int'] >= 0)) and (q['T_irr'] > 0 or q['T_int'] > 0)
+        ctx.bucket('guillot-positivity:' + ('judged' if judged_positive else 'outside-theorem-domain'))
     if kind == 'rodgers' and sub == 'user-nonsymmetric':
         judged_positive = False
     if judged_positive:
@@ -611,6 +616,16 @@ def validate_externals(ctx):
     from taurex.util import movingaverage
     rng = ctx.rng
     m = ctx.model()
+    # hypothesis of theorem guillot_positive on the external E2: 0 <= E2(x) <= exp(-x)/(1+x) for x >= 0
+    import scipy.special as spe
+    xs = np.concatenate([[0.0], 10 ** rng.uniform(-12, 3, size=ctx.n(400, 4000)), rng.uniform(0, 50, size=ctx.n(200, 2000))])
+    e2 = spe.expn(2, xs)
+    ub = np.exp(-xs) / (1 + xs)
+    bad = ~((e2 >= 0) & (e2 <= ub * (1 + 1e-12) + 1e-300))
+    ctx.bucket('external:expn2-bound')
+    if np.any(bad):
+        ctx.mismatch('scipy.special.expn(2, x) vs the assumed bound 0 <= E2(x) <= exp(-x)/(1+x)',
+                     dict(x=xs[bad][:5]), dict(e2=e2[bad][:5], bound=ub[bad][:5]))
     for _ in range(ctx.n(60, 600)):
         k = int(rng.integers(1, 9))
         xp = np.sort(rng.choice(np.arange(0, 12.0), size=k, replace=True))       # ties allowed
